@@ -15,7 +15,7 @@ CONSTANTS Labels,      \* label values, "" = none
 
 VARIABLES cas
 Paths == {"packet", "stream"}
-PacketMsgs == {"user", "alive", "ping", "compound"}
+PacketMsgs == {"user", "alive", "ping", "compound", "indirect"}
 StreamMsgs == {"userstream", "pushpull", "tcpping"}
 Msgs == PacketMsgs \cup StreamMsgs
 
